@@ -94,7 +94,7 @@ Definition balloc (n : N) (b : buddy) : option (list N * buddy) :=
     | [] => None
     | block :: rest =>
       let b1 := set_level b i rest in
-      let b2 := if (i =? level) && (0 <? i)
+      let b2 := if 0 <? i
                 then b1 <| b_merge := toggle (index_of_block b1 block (i - 1)) (b_merge b1) |>
                 else b1 in
       let b3 := split_down (length (b_free b)) b2 block i level in
